@@ -100,14 +100,18 @@ def run_oracle(rep, orc, rng, tier, kind="rel", budget_scale=1.0):
         if j:
             tag, detail = j
             fails.append((tag, detail, l, o, errs.get(i, "")))
+    skipped = getattr(orc, "skipped", 0)
+    if lines and skipped * 20 > len(lines):
+        fails.append((None, "%d of %d generated cases were not judged because the implementation rejected an input that is "
+                            "valid by construction" % (skipped, len(lines)), lines[0], outs[0], ""))
     for l, o in list(zip(lines, outs))[:1]:
         rep.sample({"oracle": orc.name, "case": l[:300], "impl": o[:200]})
     if lines:
         k = rng.randrange(len(lines))
         rep.sample({"oracle": orc.name, "case": lines[k][:300], "impl": outs[k][:200]})
     rep.oracles[orc.name + ("" if kind == "rel" else "@" + kind)] = {
-        "cases": len(lines), "failures": len(fails), "impl_s": round(time.time() - t0, 2), "build": kind,
-        "what": orc.__doc__ or ""}
+        "cases": len(lines), "failures": len(fails), "not_judged": skipped, "impl_s": round(time.time() - t0, 2),
+        "build": kind, "what": orc.__doc__ or ""}
     return fails
 
 
